@@ -319,6 +319,7 @@ func runC10(c *Ctx) {
 	c.omoList("C10")
 	c.omoObj("C10")
 	c.derivedCorners("C10")
+	c.lateDerived("C10")
 	c.overriding("C10")
 	// keys that contain a sigil next to a key that is their prefix: the path always takes the short key first,
 	// whatever the iteration order of the map (repeated, since Go randomises it)
